@@ -31,7 +31,8 @@ from elementpath.tdop import MultiLabel
 from elementpath.helpers import Patterns, is_xml_codepoint, node_position
 from elementpath.namespaces import get_expanded_name, split_expanded_name, \
     XPATH_FUNCTIONS_NAMESPACE
-from elementpath.datatypes import NumericProxy, QName, Date, DateTime, Time, AnyURI
+from elementpath.datatypes import NumericProxy, QName, Date, DateTime, Time, AnyURI, \
+    UntypedAtomic
 from elementpath.sequences import xlist
 from elementpath.sequence_types import is_sequence_type, match_sequence_type
 from elementpath.etree import defuse_xml
@@ -482,11 +483,15 @@ def evaluate__format_integer(self: XPathFunction, context: ta.ContextType = None
     if self.context is not None:
         context = self.context
 
-    value = self.get_argument(context, cls=NumericProxy)
+    value = self.get_argument(context)
+    if isinstance(value, UntypedAtomic):
+        value = self.cast_to_primitive_type(value, 'xs:integer')
     picture = self.get_argument(context, index=1, required=True, cls=str)
     lang = self.get_argument(context, index=2, cls=str)
     if value is None:
         return ''
+    elif not isinstance(value, int) or isinstance(value, bool):
+        raise self.error('XPTY0004', "1st argument must be an xs:integer")
 
     if ';' not in picture:
         fmt_token, fmt_modifier = picture, ''
